@@ -274,6 +274,22 @@ class _Inliner:
                 if rep is not None:
                     return rep
             return e
+        if (isinstance(e, ast.ListComp) and len(e.generators) == 1 and not e.generators[0].is_async and not e.generators[0].ifs
+                and isinstance(e.generators[0].iter, (ast.Tuple, ast.List)) and 0 < len(e.generators[0].iter.elts) <= 8
+                and isinstance(e.generators[0].target, ast.Name) and self._has_target(e.elt, cls, selfname, owner)):
+            # [f(x) for x in (A, B)]  ->  [f(A), f(B)]   (then the helper calls are inlined one after the other)
+            name = e.generators[0].target.id
+            elts = []
+            for row in e.generators[0].iter.elts:
+                class Sub(ast.NodeTransformer):
+                    def visit_Name(self_, n):
+                        if n.id == name and isinstance(n.ctx, ast.Load):
+                            return ast.copy_location(copy.deepcopy(row), n)
+                        return n
+                elts.append(Sub().visit(copy.deepcopy(e.elt)))
+            new = ast.copy_location(ast.List(elts=elts, ctx=ast.Load()), e)
+            ast.fix_missing_locations(new)
+            return self._expr(new, cls, selfname, owner, pre)
         if isinstance(e, ast.ListComp) and len(e.generators) == 1 and not e.generators[0].is_async and self._has_target(e.elt, cls, selfname, owner):
             # [E(helper(..)) for v in IT if c]  ->  acc = []; for v in IT: if c: acc.append(E(..))   (then the helper is inlined in the loop body)
             gen = e.generators[0]
